@@ -34,10 +34,10 @@ def code_lines(path):
         if l.strip().startswith('#[cfg(test)]'):
             break
         s = l.strip()
-        if not s or s.startswith('//') or s.startswith('///') or s.startswith('#['):
-            # attributes carry nom-derive code in strings: keep those with Parse/PreExec/ErrorIf/Count
-            if not (s.startswith('#[nom') or 'ErrorIf' in s or 'PreExec' in s or 'Count' in s or 'Parse' in s or 'Cond' in s or 'PostExec' in s):
-                continue
+        if not s or s.startswith('//'):
+            continue
+        if s.startswith('#[') and not s.startswith('#[nom'):
+            continue
         out.append((i, l))
     return out, lines
 
@@ -143,7 +143,7 @@ def run(worker, nworkers):
         print(out)
         sys.exit(2)
     env = dict(os.environ, CARGO_NET_OFFLINE='true', CARGO_TARGET_DIR=f'/tmp/sweep-t{worker}-tests')
-    cenv = dict(os.environ, CARGO_NET_OFFLINE='true', NFV_REPO=W, NFV_TARGET=f'/tmp/sweep-t{worker}', NFV_WATCHDOG_S='400', NFV_THREADS='8')
+    cenv = dict(os.environ, CARGO_NET_OFFLINE='true', NFV_REPO=W, NFV_TARGET=f'/tmp/sweep-t{worker}', NFV_WATCHDOG_S='400', NFV_THREADS='8', NFV_SCALE=os.environ.get('SWEEP_SCALE', '0.35'))
     for k, m in enumerate(ms):
         if k % nworkers != worker or m['id'] in done:
             continue
